@@ -15,12 +15,13 @@ CLAIM = dict(
          "on) possibly ended by one lexer error -- never its panic or out-of-fuel item (lexer_total); Document::parse "
          "never ends in a panic outcome and the fuel `length tokens + 1` always suffices (parse_never_panics, "
          "parser_fuel_suffices), returns a tree or an error on every text outside the lexeme class the C12 model "
-         "excludes (parse_returns_partial), never builds an Expected* error with an empty token list; every span of "
-         "every returned tree (31 AST node kinds incl. doc comments) and of every error not reported at the end of the "
-         "input lies inside the source on character boundaries (spans_in_bounds_partial); the end-of-input span rule "
+         "excludes (parse_returns_partial), never builds an Expected* error with an empty token list, never slices a "
+         "package path out of order (package_path_slice_never_panics); every span of every returned tree (every AST "
+         "type, incl. doc comments) and of every error not reported at the end of the input lies inside the source on "
+         "character boundaries (spans_in_bounds_partial); the end-of-input span rule "
          "violates the property on two computed witnesses (spans_in_bounds_refuted, replayed on the real parser); the "
          "parser has no depth guard: for every d a text of 2d+20 characters nests more than d activations of Expr::parse "
-         "(depth_unbounded, the model-level form of the stack overflow); the graph-layer no-panic theorems of C06 are "
+         "(depth_unbounded, with depth_is_recursion_depth: the model-level form of the stack overflow); the graph-layer no-panic theorems of C06 are "
          "restated. What a model cannot exhibit (exhaustion of the machine stack, allocation failure, non-termination or "
          "panics inside wasmparser / wit-component / miette, and the resolver / package decoder / encoder, which are "
          "not modelled for this property) is covered only by a SEARCH, labelled as such: a supervised worker process "
@@ -108,6 +109,19 @@ PROPOSED_KNOWN = [
               "module with an exact function import (`(import \"a\" \"b\" (func (exact (type 0))))`): a component it "
               "accepts as valid panics the decoder. Small fix proposed: hooks/fix-c14-func-exact.patch (return an "
               "error, like the other unsupported features)"),
+    dict(property=PID, id="decoder-nested-namespace-name", status="known", signature="panic:from_bytes:package.rs:component-name-unwrap",
+         witness="corpus/C14/decode-nested-namespace.c14 (`package a:b:c; world w {}` -> resolve -> encode -> Package::from_bytes)",
+         text="a document whose package name has three segments (`a:b:c`, accepted by the lexer's package_name rule) is "
+              "encoded and validated (WasmFeatures::all() allows nested namespaces), but Package::from_bytes then calls "
+              "ComponentName::new(..).unwrap() with DEFAULT features in find_definitions, which rejects the name: "
+              "`expected `/` after package name` -> panic on wac's own valid output (found by the thorough-tier search). "
+              "Small fix proposed: hooks/fix-c14-nested-namespace-name.patch"),
+    dict(property=PID, id="miette-render-long-line", status="known", signature="render-panic:miette:column>65535",
+         witness="nest:wide-gap:200000 (`let x =` + 200000 spaces + `?;`), nest:list-open:15000",
+         text="a diagnostic whose label starts beyond column 65535 of a line cannot be rendered: miette 7.2 "
+              "GraphicalReportHandler pads with `{:width$}` and the Rust formatter panics `Formatting argument out of "
+              "range` for a width above u16::MAX (graphical.rs). Third-party limitation reached through wac's own way "
+              "of printing errors; no change in wac proposed"),
     dict(property=PID, id="aggregator-self-use-recursion", status="known", signature="abort:encode:stack-overflow:same-track-use",
          witness="corpus/C14/aggregator-self-use.c14",
          text="a package importing a:b/c@1.1.0 and a:b/c@1.0.0 where the latter uses a type of the former (one semver "
@@ -190,6 +204,9 @@ def signature(kind, origin, text, obs):
         if st == "encode" and f == "encoding.rs" and ("no entry found for key" in obs or "should have owner" in obs) \
                 and "resource" in t and ("use " in t or "include " in t):
             return "panic:encode:encoding.rs:resource-maps"
+        if st in ("from_bytes", "resolve", "reload") and f == "package.rs" and "Result::unwrap()" in obs \
+                and "after package name" in obs and (text is None or re.search(r"\bpackage\s+[^;\s:/@]+:[^;\s:/@]+:[^;\s:/@]", t)):
+            return "panic:from_bytes:package.rs:component-name-unwrap"
         if st in ("from_bytes", "resolve", "reload") and f == "package.rs" and "EntityType::FuncExact" in obs:
             return "panic:from_bytes:package.rs:todo-func-exact"
         if st == "reload" and f == "package.rs" and "prev.is_none()" in obs and "resource" in t and "include " in t \
@@ -329,7 +346,15 @@ def run(res, tier, seed, replay):
     violations = []
     hit = {}
     for c, origin, text, obs, why in fails:
-        if why.startswith("span not inside"):
+        if why.startswith("the diagnostic could not be rendered") and "Formatting argument out of range" in obs:
+            # label beyond column 65535: the error offset is at least that far into the text
+            m = re.match(r"ERR \S+ (\d+) ", obs)
+            col_ok = m is not None and int(m.group(1)) > 65535
+            if text is not None and m is not None:
+                b = text.encode("utf-8")[:int(m.group(1))]
+                col_ok = len(b) - (b.rfind(b"\n") + 1) > 65535
+            sig = "render-panic:miette:column>65535" if col_ok else None
+        elif why.startswith("span not inside"):
             # the end-of-input rule: an `eof` error whose span is outside an EMPTY source or inside a character
             line, _, extra = obs.partition("\t")
             bad = extra.split(" ")[1]
@@ -417,8 +442,9 @@ def run(res, tier, seed, replay):
             "models Lexer.v / Parser.v / Ast.v (C12) are hand-written from lexer.rs and ast*.rs; tied to the code by the "
             "C12 correspondence and by the correspondence of this run (tree with all spans / error variant, expected "
             "tokens, span) through the C12 extraction and driver (build/c12)",
-            "the package-path slice `s[slash + 1..at]` and semver::Version::from_str are modelled total (Semver.v); the "
-            "lexeme class reported as LUnmodelled (C12) is outside parse_returns_partial",
+            "semver::Version::from_str is modelled total (Semver.v, C15); the package-path slice `s[slash + 1..at]` is "
+            "total in Parser.v and proved in range separately (package_path_slice_never_panics); the lexeme class "
+            "reported as LUnmodelled (C12) is outside parse_returns_partial",
             "resolution.rs, package.rs, encoding.rs, wasmparser, wit-component, wit-parser, wat, miette, serde_json are "
             "NOT modelled: only searched, in a supervised child process",
             "stack size of the worker's main thread (ulimit -s, 8 MiB here) and the harness build profile (opt-level 1) "
